@@ -18,12 +18,30 @@ def describe_folder(folder, outputs):
 
     from vlib import probes
 
-    res = {"outputs": {}, "run_info": None, "xarray": None}
+    res = {"outputs": {}, "run_info": None, "xarray": None, "outputs_after_mutation": {}}
     for o in outputs:
         try:
-            res["outputs"][o] = probes.render(load_outputs(o, run_folder=folder))
+            x = load_outputs(o, run_folder=folder)
+            res["outputs"][o] = probes.render(x)
         except Exception as e:  # noqa: BLE001
             res["outputs"][o] = f"EXC {type(e).__name__}: {str(e)[:200]}"
+            continue
+        # what was loaded belongs to the caller: changing it in place must not change what the folder yields next time
+        try:
+            if isinstance(x, np.ndarray) and x.size:
+                x[(0,) * x.ndim] = "MUTATED" if x.dtype == object else 0
+            elif isinstance(x, list):
+                x.append("MUTATED")
+            elif isinstance(x, dict):
+                x["MUTATED"] = 1
+            else:
+                continue
+        except Exception:  # noqa: BLE001
+            continue
+        try:
+            res["outputs_after_mutation"][o] = probes.render(load_outputs(o, run_folder=folder))
+        except Exception as e:  # noqa: BLE001
+            res["outputs_after_mutation"][o] = f"EXC {type(e).__name__}: {str(e)[:200]}"
     if len(outputs) >= 2:
         # all names in ONE call; every array is kept until all have been loaded, then rendered
         try:
